@@ -176,3 +176,55 @@ def load_json(path, default):
             return json.load(f)
     except FileNotFoundError:
         return default
+
+
+class PrefixReport:
+    """lets one property reuse another property's rule function: instances are recorded in the outer report
+    under a different rule prefix (explanation / assumptions of the inner module are ignored)"""
+
+    def __init__(self, outer, old, new, only=None):
+        object.__setattr__(self, "_o", outer)
+        object.__setattr__(self, "_old", old)
+        object.__setattr__(self, "_new", new)
+        object.__setattr__(self, "_only", only)
+
+    def _r(self, rule):
+        return rule.replace(self._old, self._new, 1)
+
+    def _keep(self, rule):
+        return self._only is None or any(rule.startswith(x) for x in self._only)
+
+    def ok(self, rule, *a, **k):
+        if self._keep(rule):
+            self._o.ok(self._r(rule), *a, **k)
+
+    def bad(self, rule, *a, **k):
+        if self._keep(rule):
+            self._o.bad(self._r(rule), *a, **k)
+
+    def check(self, rule, key, cond, *a, **k):
+        if self._keep(rule):
+            return self._o.check(self._r(rule), key, cond, *a, **k)
+        return cond
+
+    def floor(self, rule, *a, **k):
+        if self._keep(rule):
+            self._o.floor(self._r(rule), *a, **k)
+
+    def anchor_missing(self, rule, what):
+        self._o.anchor_missing(self._r(rule), what)
+
+    def cannot_analyse(self, rule, *a, **k):
+        if self._keep(rule):
+            self._o.cannot_analyse(self._r(rule), *a, **k)
+
+    def fn(self, key):
+        self._o.fn(key)
+
+    def __getattr__(self, name):
+        return getattr(self._o, name)
+
+    def __setattr__(self, name, value):
+        if name in ("explanation", "assumptions", "exhaustive"):
+            return
+        setattr(self._o, name, value)
